@@ -186,15 +186,21 @@ package pcache
 
 // Readers (C07): one atomic load per operation; a key present in the loaded
 // snapshot is answered without touching the lock or any source.
-// Data-structure invariant of the published maps (ASSUMED here: it is a fact
-// about every snapshot ever stored, i.e. about all earlier calls): a non-nil
-// entry carries its provider record.
+// An entry of the update map answers the lookup whatever it is - nil included: that is a provider known to
+// be absent, it overrides the main map and is not asked for again; else an entry of the main map does;
+// only a provider in neither map is fetched.
 //@ func (*ProviderCache).getReadOnly
 //@   property C07
 //@   requires pcOK(pc) && ctx != nil && !held(pc.writeLock)
 //@   modifies mapof(pc.write), pc.read, objects(cacheInfo)
 //@   ensures pcOK(pc) && !held(pc.writeLock)
-//@   ghost hit := false
+//@   ghost gu := 0
+//@   ghost gm := 0
+//@   at call loadReadOnly: after ghost gu := result.u
+//@   at call loadReadOnly: after ghost gm := result.m
+//@   ensures-local has(gu, pid) ==> result1 == nil && result0 == gu[pid] && count("call:fetchMissing") == 0
+//@   ensures-local !has(gu, pid) && has(gm, pid) ==> result1 == nil && result0 == gm[pid] && count("call:fetchMissing") == 0
+//@   ensures-local !has(gu, pid) && !has(gm, pid) ==> count("call:fetchMissing") == 1
 //@   ensures result0 != nil ==> result0.provider != nil
 //@   ensures-local count("atomic.load:read") == 1 || count("call:loadReadOnly") == 1
 
@@ -280,3 +286,38 @@ package pcache
 //@   at call ReadAll: after ghost gb := result0
 //@   at call Unmarshal: assert arg0 == gb
 //@   ensures-local result1 == nil && result0 != nil ==> count("call:Unmarshal") == 1 && count("call:ReadAll") == 1 && isfresh(result0)
+
+// Options (C06: time-to-live and refresh interval are what the caller set): each option sets exactly the
+// setting it names; the configuration handed to New is the defaults as changed by the options and by
+// nothing else (what the last option left is what is returned).
+//@ func WithTTL$1
+//@   property C06
+//@   requires cfg != nil
+//@   modifies cfg.ttl
+//@   ensures cfg.ttl == ttl && result == nil
+//@ func WithRefreshInterval$1
+//@   property C06
+//@   requires cfg != nil
+//@   modifies cfg.refreshIn
+//@   ensures cfg.refreshIn == interval && result == nil
+//@ func WithPreload$1
+//@   property C06
+//@   requires cfg != nil
+//@   modifies cfg.preload
+//@   ensures cfg.preload == preload && result == nil
+//@ func WithClient$1
+//@   property C06
+//@   requires cfg != nil
+//@   modifies cfg.httpClient
+//@   ensures cfg.httpClient == ite(c != nil, c, old(cfg.httpClient)) && result == nil
+//@ func getOpts
+//@   property C06
+//@   ghost gttl := 0
+//@   ghost gref := 0
+//@   ghost gpre := false
+//@   at call opt: after ghost gttl := cfg.ttl
+//@   at call opt: after ghost gref := cfg.refreshIn
+//@   at call opt: after ghost gpre := cfg.preload
+//@   loop 1: invariant rangeindex < len(opts) && (rangeindex >= 0 ==> gttl == cfg.ttl && gref == cfg.refreshIn && gpre == cfg.preload) && (rangeindex < 0 ==> cfg.ttl == defaultTTL && cfg.refreshIn == defaultRefreshIn && cfg.preload)
+//@   ensures-local result1 == nil && len(opts) == 0 ==> result0.ttl == defaultTTL && result0.refreshIn == defaultRefreshIn && result0.preload
+//@   ensures-local result1 == nil && len(opts) > 0 ==> result0.ttl == gttl && result0.refreshIn == gref && result0.preload == gpre
